@@ -6,6 +6,8 @@
 #include <covfie/core/backend/transformer/affine.hpp>
 #include <covfie/core/backend/transformer/backup.hpp>
 #include <covfie/core/backend/transformer/clamp.hpp>
+#include <covfie/core/backend/transformer/dereference.hpp>
+#include <covfie/core/backend/transformer/covariant_cast.hpp>
 #include <covfie/core/backend/transformer/linear.hpp>
 #include <covfie/core/backend/transformer/nearest_neighbour.hpp>
 #include <covfie/core/backend/transformer/shuffle.hpp>
@@ -13,6 +15,7 @@
 #include <covfie/core/field.hpp>
 #include <covfie/core/field_view.hpp>
 #include <covfie/core/parameter_pack.hpp>
+#include <tuple>
 using namespace covfie;
 
 // K nested affine layers over identity<float1>: all layers share one configuration type (algebra::affine<1,float>)
@@ -174,6 +177,88 @@ template <int K> static void accessors_h()
     // the view built from the field sees the same configuration-dependent behaviour: non-owning accessors
     typename field<B>::view_t v(f);
     (void)v;
+    vf_observe_u64(K);
+}
+
+// rebuilding a stack from what its accessors report, through every constructor overload of every layer:
+//   1. (const configuration_t &, backend owning_data_t &&) at each layer
+//   2. one parameter pack (configuration of each layer from the outside in, then the storage-order layer's data)
+//   3. the forwarding overload (configuration_t, Args...) at each layer: arguments of the next layer's constructor
+// the rebuilt stack has the same configuration at every layer and the same stored values (vf::same)
+template <class O> static O rebuild1(const O & o)
+{
+    using B = typename O::parent_t;
+    constexpr vf::kind k = vf::kind_of<B>::value;
+    if constexpr (k == vf::K_ARRAY || k == vf::K_CONSTANT || k == vf::K_IDENTITY || k == vf::K_PROBE) {
+        return O(o);
+    } else {
+        using I = std::decay_t<decltype(o.get_backend())>;
+        return O(o.get_configuration(), rebuild1<I>(o.get_backend()));
+    }
+}
+
+template <class O> static auto pack_tuple(const O & o)
+{
+    using B = typename O::parent_t;
+    constexpr vf::kind k = vf::kind_of<B>::value;
+    if constexpr (k == vf::K_ARRAY || k == vf::K_CONSTANT || k == vf::K_IDENTITY || k == vf::K_PROBE || k == vf::K_STRIDED || k == vf::K_MORTON || k == vf::K_HILBERT) {
+        return std::make_tuple(rebuild1<O>(o));
+    } else {
+        return std::tuple_cat(std::make_tuple(o.get_configuration()), pack_tuple(o.get_backend()));
+    }
+}
+
+// layers that ship the forwarding overload (configuration_t, Args...); clamp's and backup's (Args...) convenience overload is not
+// used here: it is ill-formed on the pinned tree when instantiated (array::array has no member fill; DESIGN 8.3, observation)
+template <class B> struct has_fwd : std::false_type {};
+template <class S> struct has_fwd<backend::backup<S>> : std::true_type {};
+template <class S, class I> struct has_fwd<backend::shuffle<S, I>> : std::true_type {};
+template <class T, class S> struct has_fwd<backend::covariant_cast<T, S>> : std::true_type {};
+template <class S, class V> struct has_fwd<backend::linear<S, V>> : std::true_type {};
+template <class S> struct has_fwd<backend::dereference<S>> : std::true_type {};
+
+template <class O> static O rebuild3(const O & o)
+{
+    using B = typename O::parent_t;
+    constexpr vf::kind k = vf::kind_of<B>::value;
+    if constexpr (k == vf::K_ARRAY || k == vf::K_CONSTANT || k == vf::K_IDENTITY || k == vf::K_PROBE) {
+        return O(o);
+    } else {
+        using I = std::decay_t<decltype(o.get_backend())>;
+        using IB = typename I::parent_t;
+        constexpr vf::kind ik = vf::kind_of<IB>::value;
+        if constexpr (ik == vf::K_ARRAY || ik == vf::K_CONSTANT || ik == vf::K_IDENTITY || ik == vf::K_PROBE) {
+            return O(o.get_configuration(), rebuild3<I>(o.get_backend()));
+        } else {
+            using II = std::decay_t<decltype(o.get_backend().get_backend())>;
+            if constexpr (has_fwd<B>::value && std::is_constructible_v<O, typename B::configuration_t, typename IB::configuration_t, II>)
+                return O(o.get_configuration(), o.get_backend().get_configuration(), rebuild3<II>(o.get_backend().get_backend()));
+            else
+                return O(o.get_configuration(), rebuild3<I>(o.get_backend()));
+        }
+    }
+}
+
+template <int K> static void rebuild_h()
+{
+    using B = typename stack<K>::type;
+    using O = typename B::owning_data_t;
+    auto o = vf::blank<B>(1);
+    vf::sym(o);
+    field<B> f(make_parameter_pack(std::move(o)));
+    {
+        O r(rebuild1<O>(f.backend()));
+        vf_assert(vf::same(r, f.backend()), 1);
+    }
+    {
+        auto t = pack_tuple(f.backend());
+        field<B> g(std::apply([](auto &&... xs) { return make_parameter_pack(std::forward<decltype(xs)>(xs)...); }, std::move(t)));
+        vf_assert(vf::same(g.backend(), f.backend()), 2);
+    }
+    {
+        O r(rebuild3<O>(f.backend()));
+        vf_assert(vf::same(r, f.backend()), 3);
+    }
     vf_observe_u64(K);
 }
 
